@@ -3,7 +3,8 @@
 Why: bit-blasting decides  (y+1)*w == y*w + w  or "row-major offset is injective" neither at 64 nor at 16 bits within any
 reasonable budget, while they are trivial polynomial facts for an arithmetic solver.  This module is used by
 irsym.Exec._check as a fallback between the fast incremental attempt and the plain bit-vector fallback, and only for queries
-that contain a symbolic*symbolic multiplication (or a division by a symbolic divisor).
+that contain a symbolic*symbolic multiplication, a division by a symbolic divisor, or a division/remainder of a word of
+32 bits or more by a constant that is not a power of two.
 
 Soundness: every bit-vector term t of width n is translated to an integer term e together with a python interval
 [lo, hi] that contains e under every assignment of the inputs, with the invariant   value(t) == e  (mod 2^n).
@@ -30,6 +31,15 @@ def _is_num(e):
     return z3.is_bv_value(e)
 
 
+def _odd_divisor(c):
+    """constant divisor that is not a power of two (bit-blasted constant division of a wide symbolic dividend is slow)"""
+    v = c.as_long()
+    return v != 0 and e_width(c) >= 32 and (v & (v - 1)) != 0 and ((-v) % (1 << c.size())) & (((-v) % (1 << c.size())) - 1) != 0
+
+
+def e_width(c): return c.size()
+
+
 def wants(assumptions):
     """cheap syntactic test: is there a product of two non-constant factors, or a division by a non-constant?"""
     seen = set(); todo = list(assumptions)
@@ -44,6 +54,9 @@ def wants(assumptions):
             if sum(0 if _is_num(c) else 1 for c in e.children()) >= 2: return True
         elif k in (z3.Z3_OP_BUDIV, z3.Z3_OP_BUREM, z3.Z3_OP_BUDIV_I, z3.Z3_OP_BUREM_I, z3.Z3_OP_BUMUL_NO_OVFL):
             if not _is_num(e.arg(1)): return True
+            if k != z3.Z3_OP_BUMUL_NO_OVFL and _odd_divisor(e.arg(1)): return True
+        elif k in (z3.Z3_OP_BSDIV, z3.Z3_OP_BSREM, z3.Z3_OP_BSDIV_I, z3.Z3_OP_BSREM_I):
+            if _is_num(e.arg(1)) and _odd_divisor(e.arg(1)): return True
         todo.extend(e.children())
     return False
 
@@ -177,6 +190,18 @@ class Translator:
             if c >= n: return (z3.IntVal(0), 0, 0, n)
             q, _ = s.split(s.bv(ch[0]), c)
             return (q[0], q[1], q[2], n)
+        if k == z3.Z3_OP_BASHR and z3.is_bv_value(ch[1]):
+            c = min(ch[1].as_long(), n - 1)          # shifting by >= n-1 leaves only copies of the sign bit
+            sx, lo, hi = s.signed(s.bv(ch[0]))
+            if c == 0: return (sx, lo, hi, n)
+            K = 1 << c
+            key = ('ashr', sx.get_id(), c)
+            qm = s.normc.get(key)
+            if qm is None:
+                q = s.fresh('aq'); m = s.fresh('am')
+                s.side += [sx == q * K + m, m >= 0, m < K, q >= (lo >> c), q <= (hi >> c)]      # floor division
+                qm = (q, sx); s.normc[key] = qm
+            return (qm[0], lo >> c, hi >> c, n)
         if k == z3.Z3_OP_BAND and len(ch) == 2 and (z3.is_bv_value(ch[0]) or z3.is_bv_value(ch[1])):
             m, x = (ch[0], ch[1]) if z3.is_bv_value(ch[0]) else (ch[1], ch[0])
             mv = m.as_long()
@@ -311,7 +336,7 @@ def _selftest(rounds=400, seed=1):
     def term(w, depth):
         if depth == 0 or rnd.random() < 0.15:
             return rnd.choice(vars_[w]) if rnd.random() < 0.7 else z3.BitVecVal(rnd.randrange(1 << w), w)
-        op = rnd.choice(['add', 'sub', 'mul', 'neg', 'not', 'ite', 'zext', 'sext', 'extract', 'concat', 'shl', 'lshr', 'and', 'udiv', 'urem', 'sdiv', 'srem', 'uf', 'mulc', 'bit'])
+        op = rnd.choice(['add', 'sub', 'mul', 'neg', 'not', 'ite', 'zext', 'sext', 'extract', 'concat', 'shl', 'lshr', 'ashr', 'and', 'udiv', 'urem', 'sdiv', 'srem', 'uf', 'mulc', 'bit'])
         a = term(w, depth - 1); b = term(w, depth - 1)
         if op == 'add': return a + b
         if op == 'sub': return a - b
@@ -336,6 +361,7 @@ def _selftest(rounds=400, seed=1):
             return a
         if op == 'shl': return a << z3.BitVecVal(rnd.randrange(w + 1), w) if w > 1 else a
         if op == 'lshr': return z3.LShR(a, z3.BitVecVal(rnd.randrange(w + 1), w)) if w > 1 else a
+        if op == 'ashr': return (a >> z3.BitVecVal(rnd.randrange(w + 2), w)) if w > 1 else a
         if op == 'and': return a & z3.BitVecVal((1 << rnd.randrange(w + 1)) - 1, w)
         if op == 'bit': return (a & b) if w == 1 and rnd.random() < .4 else (a | b) if w == 1 and rnd.random() < .5 else (a ^ b) if w == 1 else a
         if op == 'udiv': return z3.UDiv(a, b)
